@@ -437,6 +437,19 @@ func init() {
 			f.Anonymous(),
 		}
 	})
+	reg("(*reflect.rtype).Comparable", func(i *interpreter, fr *frame, args []value) value {
+		return types.Comparable(args[0].(rtype).t)
+	})
+	reg("(*reflect.rtype).ConvertibleTo", func(i *interpreter, fr *frame, args []value) value {
+		return types.ConvertibleTo(args[0].(rtype).t, typeArg(args[1]))
+	})
+	reg("(*reflect.rtype).Implements", func(i *interpreter, fr *frame, args []value) value {
+		it, ok := typeArg(args[1]).Underlying().(*types.Interface)
+		if !ok {
+			reflectPanic("reflect: non-interface type passed to Type.Implements")
+		}
+		return types.Implements(args[0].(rtype).t, it)
+	})
 	reg("(*reflect.rtype).AssignableTo", func(i *interpreter, fr *frame, args []value) value {
 		return types.AssignableTo(args[0].(rtype).t, typeArg(args[1]))
 	})
